@@ -359,3 +359,9 @@ end LA.Coalesce
 /-- Package aucoalesce keeps nothing between calls except the two id caches used by `ResolveIDs`, and package auparse
 nothing at all (regenerated list, see LA.Proofs.StateFacts): `CoalesceMessages` is a function of its argument. -/
 theorem C15_coalescer_keeps_nothing_between_calls : LA.StateFacts.ofPkg "aucoalesce" = LA.StateFacts.coalesceIdCaches ∧ LA.StateFacts.ofPkg "auparse" = [] := by decide
+
+/-- What package aucoalesce reads of the process it runs in is the user and group databases and the clock of the id
+caches — both only under ResolveIDs — and package auparse reads nothing (`envReads`, regenerated with go/types on every
+run). CoalesceMessages is a function of the messages and the tables. -/
+theorem C15_environment_is_the_id_databases :
+    LA.StateFacts.envOf "aucoalesce" = LA.StateFacts.coalesceEnv ∧ LA.StateFacts.envOf "auparse" = [] := by decide
